@@ -17,7 +17,8 @@ RULE = ("list requests over a controller with a local backend, 0-3 known remotes
         "for base requests paged one item at a time, an error / no-progress / repeated item injected at every "
         "backend call index; plus a cancellation stream (one cluster fails by itself, another one's backend waits "
         "for the context to be cancelled at a chosen call); about one case in eight uses only three distinct "
-        "modified_at values (ties in the merge order). Non-trivial = the request involves a cluster other than the local one and is not "
+        "modified_at values (ties in the merge order); plus user lists with Login.LoginCluster set (known remote, local, "
+        "unknown, malformed; bypass; failing backend / cache update). Non-trivial = the request involves a cluster other than the local one and is not "
         "bypassed; distinct = distinct case line")
 ASSUMPTIONS = [
     "a backend is a function of the forwarded options and the per-backend call index; stub backends ignore context "
@@ -61,6 +62,9 @@ def parse_case(line):
     f = line.split(" ")
     c = Case()
     c.kind, c.local, c.max = f[1], f[2], int(f[3])
+    c.login = None
+    if "@" in c.kind:
+        c.kind, c.login = c.kind.split("@", 1)
     c.remotes = _list(f[4], ",")
     o = f[5].split("/")
     c.count = "" if o[0] == "~" else o[0]
@@ -94,6 +98,21 @@ def operand_strings(operand):
     if k == "i":
         return ("list", [] if body == "" else [e for e in body.split(",") if not e.startswith("#")])
     return ("other", [])
+
+
+def _render_filters(filters):
+    """the filter list as the drivers print it in the call log"""
+    out = []
+    for attr, op, operand in filters:
+        k, body = operand[0], operand[2:]
+        if k == "i":
+            body = ",".join("#" if e.startswith("#") else e for e in body.split(",")) if body else ""
+        elif k == "t":
+            body = ",".join(sorted(body.split(","))) if body else ""
+        elif k == "n":
+            body = ""
+        out.append(f"{attr}~{op}~{k}:{body}")
+    return ";".join(out) or "-"
 
 
 class Out:
@@ -209,7 +228,32 @@ def oracle(case, impl):
     c = parse_case(case)
     o = parse_out(impl)
     a = _analyse(c)
+    upd = o.calls.pop(c.local + "#upd", None)
     ncalls = sum(len(v) for v in o.calls.values())
+    if c.login and c.login != c.local and not c.bypass:
+        # conn.go UserList with a LoginCluster: not the federated list of the property. What its comment and
+        # batchUpdateUsers promise: one call to the login cluster's backend (local if it has no proxy), options
+        # unchanged, the answer passed on; returned users of the login cluster are cached locally first.
+        cid = c.login[:5] if len(c.login) == 27 else c.login if len(c.login) == 5 else None
+        target = cid if (cid is not None and cid != c.local and cid in c.remotes) else c.local
+        if list(o.calls) != [target] or ncalls != 1:
+            return f"LoginCluster {c.login}: expected exactly one call to backend {target}, log has {[(k, len(v)) for k, v in o.calls.items()]}"
+        req, resp = o.calls[target][0]
+        if req["W"] != "~" or req["F"] != _render_filters(c.filters):
+            return "LoginCluster: the request was not handed on unchanged"
+        items = _resp_items(resp)
+        if items is None:
+            return None if not o.ok and not upd else "login cluster failed but the request succeeded or users were cached"
+        want = sorted({u for u in items if u.startswith(c.login)})
+        if bool(upd) != bool(want) or (upd and (len(upd) != 1 or upd[0][0]["U"] != ",".join(want))):
+            return f"LoginCluster: users cached locally {upd} but the login cluster's users in the answer are {want}"
+        if upd and upd[0][1].startswith("E"):
+            return None if not o.ok else "user cache update failed but the request succeeded"
+        if not o.ok or o.items != items:
+            return "LoginCluster: result differs from the login cluster's answer"
+        return None
+    if upd:
+        return "UserBatchUpdate called although the request does not go to a login cluster"
     if a.passthrough:
         # not a federated request: exactly one call, to the local backend, and its answer is the answer
         if list(o.calls) != [c.local] or ncalls != 1:
@@ -333,6 +377,8 @@ def oracle(case, impl):
 
 def nontrivial_key(case, impl):
     c = parse_case(case)
+    if c.login and c.login != c.local and not c.bypass:
+        return None
     a = _analyse(c)
     if a.passthrough or a.bad_operand or not a.groups:
         return None
@@ -349,6 +395,8 @@ def describe(cases, impl):
         c = parse_case(cs)
         a = _analyse(c)
         kinds[c.kind] += 1
+        if c.login is not None:
+            d["user list with LoginCluster " + ("(detour)" if c.login != c.local and not c.bypass else "(no detour)")] += 1
         if a.passthrough:
             d["passthrough: " + a.passthrough] += 1
         elif a.bad_operand:
@@ -684,6 +732,42 @@ def _cancel_cases(rng, n):
     return out
 
 
+def _login_cases(rng, n):
+    """conn.go UserList with Login.LoginCluster set: a known remote, the local cluster, an unknown cluster or a
+    malformed id; answers with users of several clusters; bypass; failing backend; failing cache update."""
+    out = []
+    for _ in range(n):
+        b = _base(rng, "quick")
+        b["kind"] = "user"
+        local, known = b["local"], b["known"]
+        login = rng.choice(known + known + [local, "qqqqq", "", "abc", local + "-tpzed-000000000000000"]) if known \
+            else rng.choice([local, "qqqqq", ""])
+        world = [(f"{u[:5]}-tpzed-{u[12:]}", ts) for u, ts in b["world"]]
+        req = [f"{u[:5]}-tpzed-{u[12:]}" if len(u) == 27 else u for u in b["req"]]
+        fl = ["uuid~in~" + _operand(rng, req)] if rng.random() < 0.8 else \
+            rng.choice([[], ["email~like~s:%@example.com"], ["uuid~=~s:" + req[0], "is_active~=~s:true"]])
+        opts = _opts(rng, splittable=rng.random() < 0.7)
+        if rng.random() < 0.1:
+            opts["bypass"] = True
+        sc = {}
+        for cid in [local] + known:
+            r = rng.random()
+            if r < 0.15:
+                sc[cid] = ["e" + rng.choice(["0", "401", "503"])]
+            elif r < 0.5:
+                others = [u for u, _ in world if u[:5] != cid]
+                wd = dict(world)
+                if others:
+                    inj = rng.sample(others, min(len(others), rng.choice([1, 2])))
+                    sc[cid] = [f"p{rng.choice('a12')}.{rng.choice('fr')}+" + ",".join(f"{u}@{wd[u]}" for u in inj + inj[:1])]
+            else:
+                sc[cid] = [_honest_act(rng, 3)]
+        if rng.random() < 0.15:
+            sc[local + "#upd"] = ["e0"]
+        out.append(_fmt("user@" + login, local, rng.choice([0, 2, 100]), b["remotes"], opts, fl, world, sc))
+    return out
+
+
 def _exhaustive(rng):
     """Small scope, thorough tier: local a + remote b (+ unknown z): up to 2 requested uuids per cluster, all
     subsets of existing objects, page size 1/2/all in both orders."""
@@ -730,6 +814,7 @@ def generate(rng, tier):
     cases = [_random_case(rng, tier) for _ in range(n)]
     cases += _systematic(rng, 25 if tier == "quick" else 600)
     cases += _cancel_cases(rng, 60 if tier == "quick" else 2000)
+    cases += _login_cases(rng, 120 if tier == "quick" else 4000)
     if tier != "quick":
         cases += _exhaustive(rng)
     return cases
